@@ -384,7 +384,8 @@ def run(ctx):
     ctx.assumptions += ["theorems over ideal reals (binary64 rounding is covered by the whole-run correspondence only)",
                         "forward / backward sweeps, Gauss-Newton step, L-BFGS object, stop flag and clock are arbitrary oracles in the theorems",
                         "correspondence: the L-BFGS direction (Lbfgs.v) and the Gauss-Newton step (Ocp.v masked Riccati recursion, index sets, Jacobians, GN Hessian blocks, LDLT / LU solves for nu <= 2) are computed by the model; nothing is teacher-forced",
-                        "time_elapsed > max_time is modelled as an input flag; exceptions thrown by user functions are not modelled"]
+                        "time_elapsed > max_time is modelled as an input flag; exceptions thrown by user functions are not modelled",
+                        "the model's projected step uses cmax / cmin where the code uses std::fmax / std::fmin (equal unless an operand is NaN): runs that reach a NaN gradient component are outside the whole-run correspondence and judged by the oracles only"]
     gen_chain(ctx)
     check_properties(ctx, "PANOCOCP")
     run_corr(ctx, "PANOCOCP", 1.0)
@@ -400,7 +401,7 @@ def attach(ctx, scale=0.35, extra_oracle=None):
     """used by C13: re-check Properties_PANOCOCP.v (whole-loop invariants of PANOC-OCP for all oracles) and run the whole-run
     correspondence of PanocOcpLoop.v against the real PANOCOCPSolver; violations get the calling property's prefix"""
     check_properties(ctx, "PANOCOCP")
-    ctx.assumptions.append("PANOC-OCP whole-loop model (PanocOcpLoop.v, theorems in Properties_PANOCOCP.v) attached: whole runs of PANOCOCPSolver must coincide with the verified model at binary64 (Gauss-Newton block computed by Ocp.v's masked Riccati model)")
+    ctx.assumptions.append("PANOC-OCP whole-loop model (PanocOcpLoop.v, theorems in Properties_PANOCOCP.v) attached: whole runs of PANOCOCPSolver must coincide with the verified model at binary64 (Gauss-Newton block computed by Ocp.v's masked Riccati model); runs that reach a NaN gradient component are judged by the oracles only (std::fmax / std::fmin vs the model's cmax / cmin)")
     run_corr(ctx, ctx.pid, scale, extra_oracle)
 
 def gen_nan_sweep(ctx, n):
